@@ -318,6 +318,18 @@ fn run(line: &str) -> String {
     }
     let m: usize = t[1].parse().unwrap_or(5);
     RoundingMode::set_default(MODES[m & 7]);
+    if m >= 8 {
+        // mode + 8: the same operation after another thread has chosen a different default mode and
+        // switched back to the initial one; a per-thread default must not notice
+        let other = MODES[(m + 3) & 7];
+        std::thread::spawn(move || {
+            RoundingMode::set_default(other);
+            let _ = Decimal::new_raw(12345, 3).round(1);
+            RoundingMode::set_default(RoundingMode::RoundHalfEven);
+        })
+        .join()
+        .unwrap();
+    }
     let mut parts = t[0].split('.');
     let fam = parts.next().unwrap_or("");
     let op = parts.next().unwrap_or("");
